@@ -109,6 +109,64 @@ func compilerNames(script string, user map[string]bool) (vars, funcs []string) {
 	return
 }
 
+var reBatTarget = regexp.MustCompile(`(?m)^\s*(?:set (?:/a )?"?|:|call :|goto :?)([A-Za-z_][A-Za-z0-9_]*)`)
+
+// mangledSpellings reads the names a script defines (assignment targets, labels, functions), finds the decoration the
+// emitter puts in front of user names (the most frequent text before a user spelling, compared without case) and
+// returns what follows that decoration in every such name: the exact spellings under which user identifiers live in
+// the script (x_4 for X, f1_n for a local n ...). Giving ANOTHER identifier one of these spellings must not make the
+// two meet. Nothing about the scheme is assumed; it is read off the script under test.
+func mangledSpellings(script string, batch bool, user map[string]bool) []string {
+	targets := []string{}
+	if batch {
+		for _, m := range reBatTarget.FindAllStringSubmatch(script, -1) {
+			targets = append(targets, m[1])
+		}
+	} else {
+		for _, m := range reAssign.FindAllStringSubmatch(script, -1) {
+			targets = append(targets, m[1])
+		}
+		for _, m := range reFuncDef.FindAllStringSubmatch(script, -1) {
+			targets = append(targets, m[1])
+		}
+	}
+	votes := map[string]int{}
+	for _, tg := range targets {
+		low := strings.ToLower(tg)
+		for u := range user {
+			lu := strings.ToLower(u)
+			for i := 1; i+len(lu) <= len(low); i++ {
+				if strings.HasPrefix(low[i:], lu) {
+					votes[tg[:i]]++
+					break
+				}
+			}
+		}
+	}
+	best, bestN := "", 0
+	for pre, n := range votes {
+		if n > bestN || (n == bestN && (len(pre) > len(best) || (len(pre) == len(best) && pre < best))) {
+			best, bestN = pre, n
+		}
+	}
+	if best == "" {
+		return nil
+	}
+	seen := map[string]bool{}
+	out := []string{}
+	for _, tg := range targets {
+		if strings.HasPrefix(tg, best) && len(tg) > len(best) {
+			rest := tg[len(best):]
+			if _, kw := lexref.Keywords[rest]; !kw && lexrefIdent(rest) && !user[rest] && !seen[rest] {
+				seen[rest] = true
+				out = append(out, rest)
+			}
+		}
+	}
+	sort.Strings(out)
+	return out
+}
+
 var reIdent = regexp.MustCompile(`^[A-Za-z_][A-Za-z0-9_]*$`)
 
 func lexrefIdent(s string) bool { return reIdent.MatchString(s) }
@@ -212,7 +270,7 @@ func init() {
 
 func TestC10(t *testing.T) {
 	r, e := start(t, "C10",
-		"a generated program (scalars, functions, slices, strings, every loop form) and an injective renaming of its variables, parameters and functions into pools: compiler-shaped names (_h<n>, _rv<n>, _ma<n>, _fv<n>, _dv<n>, _dvc, helper scratch variables, mangled locals f<k>_x, Batch-owned names, helper routines; the pools are extended by every assignment target and function name found in the emitted script of the base program that is not a user spelling), shell-owned names (builtins, special/environment variables, reserved words), and random legal identifiers; functions and variables are renamed independently. Oracle (metamorphic): the renamed program is rejected by Transpile or shows the base program's stdout, exit status and stderr-emptiness under bash, and (for programs inside the 32-bit domain) the same relation for the Batch script under the cmd.exe model, where names differing only in letter case are part of the pools. Non-trivial = at least one identifier mapped into a compiler-shaped or shell-owned pool; distinct by renamed source.",
+		"a generated program (scalars, functions, slices, strings, every loop form) and an injective renaming of its variables, parameters and functions into pools: compiler-shaped names (_h<n>, _rv<n>, _ma<n>, _fv<n>, _dv<n>, _dvc, helper scratch variables, mangled locals f<k>_x, Batch-owned names, helper routines; the pools are extended by every assignment target and function name found in the emitted script of the base program that is not a user spelling), shell-owned names (builtins, special/environment variables, reserved words), and random legal identifiers; functions and variables are renamed independently; second order: one more identifier takes the exact spelling under which another identifier lives in the emitted script of the renamed program (decoration read off that script, either target). Oracle (metamorphic): the renamed program is rejected by Transpile or shows the base program's stdout, exit status and stderr-emptiness under bash, and (for programs inside the 32-bit domain) the same relation for the Batch script under the cmd.exe model, where names differing only in letter case are part of the pools. Non-trivial = at least one identifier mapped into a compiler-shaped or shell-owned pool; distinct by renamed source.",
 		[]string{"the Batch half runs under the cmd.exe model of C05 (its runs outside the model are inconclusive, never verdicts)", "a variable and a function never receive the same spelling (not asserted by the property)", "the base program itself is validated by the reference interpreter (invalid or non-terminating bases are discarded)"})
 	defer r.Flush()
 	cfg := gen.Cfg{MaxStmts: 18, MaxDepth: 3, ExprDepth: 3, Funcs: true, MaxFuncs: 3, Slices: true, StrOps: true, LoopBudget: 10, DumpGlobal: true, CmdNeutral: true, ErrSpell: true, BareExpr: true}
@@ -366,6 +424,62 @@ func TestC10(t *testing.T) {
 			if kind, msg = checkRenamePair(cb); kind != "" {
 				backend = "batch"
 				c = cb
+			}
+		}
+		if kind == "" && len(all) > 0 && gen.Uniform(0, 1).Draw(t, "second-order") == 0 {
+			// second order: one more identifier takes the exact spelling under which an (already renamed) identifier lives
+			// in the emitted script (read off that script), for either target
+			useBatch := batchOK && gen.Uniform(0, 1).Draw(t, "second-order-batch") == 1
+			tg := run.Bash
+			if useBatch {
+				tg = run.Batch
+			}
+			if tr2 := run.TranspileOne(renamed, tg); tr2.Accepted() {
+				now := map[string]bool{}
+				for n := range user {
+					now[n] = true
+				}
+				for _, nn := range mapping {
+					now[nn] = true
+				}
+				pool2 := []string{}
+				for _, sp := range mangledSpellings(tr2.Script, useBatch, now) {
+					if !used[sp] {
+						pool2 = append(pool2, sp)
+					}
+				}
+				if len(pool2) > 0 {
+					id := all[gen.Uniform(0, len(all)-1).Draw(t, "second-ident")]
+					nn := pool2[gen.Uniform(0, len(pool2)-1).Draw(t, "second-name")]
+					mapping2 := map[string]string{}
+					for k, v := range mapping {
+						mapping2[k] = v
+					}
+					mapping2[id.n+"/"+id.role] = nn
+					renamed2 := ts.StmtsString((&ts.Rewriter{Name: func(n, role string) string {
+						key := n + "/variable"
+						if role == "func" {
+							key = n + "/function"
+						}
+						if v, ok := mapping2[key]; ok {
+							return v
+						}
+						return n
+					}}).Stmts(stmts))
+					r.Class("rename:mangled-spelling-of-another/" + id.role)
+					r.NonTrivial(renamed2, map[string]any{"mapping": mapping2, "renamed": renamed2})
+					c2 := renameCase{Kind: "rename-pair", Property: "C10", Base: base, Renamed: renamed2, Mapping: mapping2}
+					if kind, msg = checkRenamePair(c2); kind == "" && batchOK {
+						c2.Backend = "batch"
+						if kind, msg = checkRenamePair(c2); kind != "" {
+							backend = "batch"
+						}
+					}
+					if kind != "" {
+						classes["mangled-spelling-of-another/"+id.role] = true
+						mapping, renamed, c = mapping2, renamed2, c2
+					}
+				}
 			}
 		}
 		if kind == "" {
